@@ -268,6 +268,99 @@ def tool_chain(src, r, idx):
     return recipe, None
 
 
+def tail_chain(src, r, idx):
+    """device length not a multiple of the undo block size; the filesystem fills the device and a second recorded tool
+    rewrites the partial last undo block that the first one already saved"""
+    os.makedirs(WORK, exist_ok=True)
+    img = os.path.join(WORK, "tail_%d.img" % idx)
+    und = os.path.join(WORK, "tail_%d.undo" % idx)
+    scr = os.path.join(WORK, "tail_%d.cmd" % idx)
+    for f in (img, und):
+        if os.path.exists(f):
+            os.unlink(f)
+    bs = r.choice([1024, 1024, 2048])
+    size_k = 512 + 32 * r.randint(0, 12) + r.choice([2, 8, 12, 20, 30])
+    orig = bytes(r.getrandbits(8) for _ in range(1024)) * size_k
+    open(img, "wb").write(orig)
+    T = lambda name: os.path.join(src, name)
+    env = e2v.tool_env(src, E2FSPROGS_UNDO_DIR=WORK)
+    nblk = size_k * 1024 // bs
+    first = 1 if bs == 1024 else 0
+    last = range(max(first + 40, nblk - r.randint(4, 40)), nblk)
+    open(scr, "w").write("".join("zap_block -p %d %d\n" % (0x41 + i % 20, b) for i, b in enumerate(last)))
+    steps = [[T("misc/mke2fs"), "-q", "-F", "-z", und, "-b", str(bs), "-O", "^has_journal,^resize_inode", img],
+             [T("debugfs/debugfs"), "-w", "-z", und, "-f", scr, img]]
+    if r.random() < 0.5:
+        steps.append([T("misc/tune2fs"), "-z", und, "-L", "tail", img])
+    log = []
+    for st in steps:
+        rc, out = e2v.sh(st, timeout=120, env=env)
+        log.append({"cmd": " ".join(os.path.basename(x) if "/" in x else x for x in st), "rc": rc})
+    rc, out = e2v.sh([T("misc/e2undo"), und, img], timeout=120)
+    log.append({"cmd": "e2undo", "rc": rc})
+    now = open(img, "rb").read()
+    recipe = {"kind": "tail", "bs": bs, "size_k": size_k, "zapped_blocks": [last[0], last[-1]], "steps": log}
+    for f in (img, und, scr):
+        if os.path.exists(f):
+            os.unlink(f)
+    if rc != 0:
+        return recipe, "e2undo exit %d: %s" % (rc, out[-200:])
+    if now != orig:
+        bad = [i for i in range(min(len(orig), len(now))) if now[i] != orig[i]]
+        return recipe, "after e2undo the device differs from its original contents (len %d vs %d, %d bytes differ, first at byte %s)" % (len(now), len(orig), len(bad), bad[0] if bad else "-")
+    return recipe, None
+
+
+def replay_chain(src, r, idx):
+    """e2fsck -z on a filesystem whose journal needs recovery (replay, then the restarted check): e2undo must bring back
+    the bytes the device had before e2fsck started"""
+    os.makedirs(WORK, exist_ok=True)
+    img = os.path.join(WORK, "rp_%d.img" % idx)
+    und = os.path.join(WORK, "rp_%d.undo" % idx)
+    dat = os.path.join(WORK, "rp_%d.dat" % idx)
+    for f in (img, und):
+        if os.path.exists(f):
+            os.unlink(f)
+    bs = r.choice([1024, 4096])
+    T = lambda name: os.path.join(src, name)
+    env = e2v.tool_env(src, E2FSPROGS_UNDO_DIR=WORK)
+    e2v.sh([T("misc/mke2fs"), "-q", "-F", "-t", "ext4", "-b", str(bs), img, "16M" if bs == 1024 else "40M"], env=env, timeout=120)
+    import extfmt
+    fs = extfmt.Fs(img)
+    kind = r.choice(["free", "bitmap"])
+    if kind == "bitmap":
+        blks = [fs.groups[0]["block_bitmap"], fs.groups[0]["inode_bitmap"]]      # replay leaves work for the check that follows
+        open(dat, "wb").write(bytes(bs * len(blks)))
+    else:
+        blks = sorted(r.sample(range(fs.blocks_count // 2, fs.blocks_count - 8), 3))
+        open(dat, "wb").write(b"".join((b"C12 replay %d " % b).ljust(bs, b"#") for b in blks))
+    e2v.sh([T("debugfs/debugfs"), "-w", "-f", "-", img], input=("jo\njw -b %s %s\njc\n" % (",".join(map(str, blks)), dat)).encode(), env=env, timeout=120)
+    orig = open(img, "rb").read()
+    steps = [[T("e2fsck/e2fsck"), "-fy", "-z", und, img]]
+    if r.random() < 0.5:
+        steps.append([T("misc/tune2fs"), "-z", und, "-c", "9", img])
+    log = []
+    for st in steps:
+        rc, out = e2v.sh(st, timeout=300, env=env)
+        log.append({"cmd": " ".join(os.path.basename(x) if "/" in x else x for x in st), "rc": rc, "recovered": "recovering journal" in out})
+    changed = open(img, "rb").read() != orig
+    rc, out = e2v.sh([T("misc/e2undo"), und, img], timeout=120)
+    log.append({"cmd": "e2undo", "rc": rc})
+    now = open(img, "rb").read()
+    recipe = {"kind": "journal replay under -z", "bs": bs, "journalled": kind, "blocks": blks, "steps": log}
+    for f in (img, und, dat):
+        if os.path.exists(f):
+            os.unlink(f)
+    if not log[0]["recovered"] or not changed:
+        return recipe, "generator: e2fsck did not replay a journal (nothing was tested)"
+    if rc != 0:
+        return recipe, "e2undo exit %d: %s" % (rc, out[-300:])
+    if now != orig:
+        bad = [i for i in range(min(len(orig), len(now))) if now[i] != orig[i]]
+        return recipe, "after e2undo the device differs from what it held before e2fsck -z (%d bytes differ, first at byte %s)" % (len(bad), bad[0] if bad else "-")
+    return recipe, None
+
+
 def killed_run(src, r, idx):
     """a recording run that ends abnormally (SIGKILL at its k-th device write, no exit handlers):
     e2undo must still restore every block and may only mark the filesystem as needing a check"""
@@ -354,7 +447,7 @@ def run(res, replay=None):
         "undo file layout (header/key block codec) is parsed by the check (props/c12.py) but not modelled in Coq",
     ]
     res.cov["partial"] = ["short reads at end of device, block-size changes inside a recorded run, undo-file codec and checksum refusal: not in the proved model (exercised on the implementation)",
-                          "tool-level chains (mke2fs/tune2fs/resize2fs/e2fsck/debugfs -z) are exercised in the thorough tier only"]
+                          "tool-level chains (mke2fs/tune2fs/resize2fs/e2fsck/debugfs -z, devices whose length is not a multiple of the undo block size, e2fsck -z with a journal replay and restart) are sampled: 16 in the quick tier"]
     if replay:
         rp = json.load(open(replay))
         cases = [(rp["geom"], rp["ops"])]
@@ -422,6 +515,10 @@ def run(res, replay=None):
     chain_bad = []
     with concurrent.futures.ThreadPoolExecutor(8) as ex:
         outs = list(ex.map(lambda i: tool_chain(src, e2v.rng(seed, "c12chain", i), i), range(nch)))
+        nsp = 4 if tier == "quick" else 120
+        outs += list(ex.map(lambda i: tail_chain(src, e2v.rng(seed, "c12tail", i), i), range(nsp)))
+        outs += list(ex.map(lambda i: replay_chain(src, e2v.rng(seed, "c12replay", i), i), range(nsp)))
+    nch = len(outs)
     for i, (recipe, why) in enumerate(outs):
         if i < 2:
             res.sample({"tool_chain": recipe})
